@@ -89,10 +89,20 @@ func verifyCommitIndependently(c *types.Commit, vals *types.ValidatorSet, bid ty
 			tally += val.VotingPower
 		}
 	}
-	if 3*tally <= 2*vals.TotalVotingPower() {
-		return fmt.Sprintf("only %d of %d power precommitted the block", tally, vals.TotalVotingPower())
+	if 3*tally <= 2*sumPower(vals) {
+		return fmt.Sprintf("only %d of %d power precommitted the block", tally, sumPower(vals))
 	}
 	return ""
+}
+
+// sumPower adds up the powers itself: the set's own TotalVotingPower() is a cache maintained by
+// the code under test.
+func sumPower(vals *types.ValidatorSet) int64 {
+	var t int64
+	for _, v := range vals.Validators {
+		t += v.VotingPower
+	}
+	return t
 }
 
 func runPathCase(c PathCase, x *h.Ctx) {
